@@ -1,4 +1,5 @@
-# C19 — asset handler: served files stay inside frontend/dist, no listing, CORS by whitelist.
+# C19 — asset handler: served files stay inside frontend/dist, no listing, CORS by whitelist
+# (for every method and whatever other header lines the request carries: see gen_request).
 # The generated file systems contain symbolic links (see gen_links): what a request resolves to is decided by
 # the OS, not by the request path alone.
 import json
@@ -247,14 +248,82 @@ def gen_origin(rng, wl):
     if r < 0.60 and len(wl) >= 2:
         a, b = rng.sample(wl, 2)
         return a + "!" + b                              # F-C19-a
-    if r < 0.68 and wl:
+    if r < 0.70 and wl:
         w = rng.choice(wl)
-        return rng.choice([w.rstrip("/"), w + "/", w[:-1], w[1:], w + "!", "!" + w, w.upper()])
+        return rng.choice([w.rstrip("/"), w + "/", w[:-1], w[1:], w + "!", "!" + w, w.upper(), w.swapcase(),
+                           w.replace("http", "HTTP"), w + ".", w + ":80", w + ":443", w + ":8443", w + "0",
+                           w.rsplit(":", 1)[0], w + " " + w, w + ", " + w, w + ".evil.test", w + "@evil.test",
+                           w.replace("://", "://evil.test@"), w.split("://")[-1], "null " + w]) or "x"
     if r < 0.74:
         return "*"
     if r < 0.80:
-        return rng.choice(["!", "!!", "a!b", "x", "y", "null"])
+        return rng.choice(["!", "!!", "a!b", "x", "y", "null", "NULL", "Null", "null.", "file://", "**", "* ", "*,*"]).strip() or "*"
     return rng.choice(["http://evil.test", "https://a.test", "http://a.test.evil.test", "http://a.test:80"])
+
+
+# ---- the request beyond its target: method and header lines -------------------------------------------
+# The CORS decision may depend on the Origin and the whitelist only.  VARIED_SHARE of the requests therefore
+# are not plain GETs: the method varies, preflight headers, further Origin lines, ordinary browser headers
+# and conditional / Range headers are added - for listed and foreign origins alike (gen_origin is shared).
+VARIED_SHARE = 0.6
+METHODS = (["GET"] * 3 + ["HEAD"] * 3 + ["OPTIONS"] * 6 + ["POST"] * 2 + ["PUT", "DELETE", "PATCH", "TRACE",
+           "PROPFIND", "get", "options", "Options", "QUERY"])
+ACR_METHODS = ["GET", "PUT", "DELETE", "POST", "PATCH", "HEAD", "OPTIONS", "get", "X", "*"]
+ACR_HEADERS = ["content-type", "authorization, x-requested-with", "X-Custom", "*", "origin", "range"]
+BENIGN = [("Accept", "*/*"), ("Accept", "text/html,application/xhtml+xml;q=0.9"), ("Accept-Encoding", "gzip, deflate, br"),
+          ("Accept-Language", "de,en;q=0.5"), ("User-Agent", "Mozilla/5.0 (X11; Linux x86_64)"),
+          ("Cookie", "sid=1; theme=dark"), ("Referer", "https://evil.test/page"), ("Referer", "http://a.test/"),
+          ("X-Requested-With", "XMLHttpRequest"), ("X-Forwarded-Host", "a.test"), ("X-Forwarded-For", "10.0.0.1"),
+          ("Forwarded", "host=a.test;proto=https"), ("Cache-Control", "no-cache"), ("Pragma", "no-cache"),
+          ("Content-Type", "application/json"), ("Sec-Fetch-Mode", "cors"), ("Sec-Fetch-Site", "cross-site"),
+          ("Sec-Fetch-Dest", "script"), ("Authorization", "Basic dTpw"), ("Connection", "keep-alive"),
+          ("X-Origin", "http://a.test"), ("Access-Control-Allow-Origin", "https://evil.test"),
+          ("Access-Control-Allow-Credentials", "true"), ("Timing-Allow-Origin", "*"), ("DNT", "1")]
+CONDITIONAL = [("Range", "bytes=0-3"), ("Range", "bytes=2-"), ("Range", "bytes=-4"), ("Range", "bytes=0-"),
+               ("Range", "bytes=5-9"), ("Range", "bytes=4000-5000"), ("Range", "bytes=x"), ("Range", "lines=1-2"),
+               ("If-Modified-Since", "Fri, 01 Jan 2100 00:00:00 GMT"), ("If-Modified-Since", "Mon, 01 Jan 1990 00:00:00 GMT"),
+               ("If-Modified-Since", "yesterday"), ("If-None-Match", "*"), ("If-None-Match", '"abc"'),
+               ("If-Match", "*"), ("If-Match", '"abc"'), ("If-Unmodified-Since", "Mon, 01 Jan 1990 00:00:00 GMT"),
+               ("If-Unmodified-Since", "Fri, 01 Jan 2100 00:00:00 GMT"), ("If-Range", '"abc"'),
+               ("If-Range", "Fri, 01 Jan 2100 00:00:00 GMT")]
+CONDITIONAL_NAMES = {"range", "if-modified-since", "if-none-match", "if-match", "if-unmodified-since", "if-range"}
+
+
+def odd_case(rng, name):
+    return rng.choice([name, name, name.lower(), name.upper(),
+                       "".join(ch.upper() if rng.random() < 0.5 else ch.lower() for ch in name)])
+
+
+def gen_request(rng, wl):
+    """(method, origin, headers): origin is the Origin line sent first (None = none), headers the further
+    header lines in order.  All methods are valid tokens and all values valid field values without outer
+    white space, so that the request line and the path alone decide whether net/http parses the request."""
+    o = gen_origin(rng, wl)
+    o = None if o is None else o.strip()                 # net/textproto trims outer white space of a value
+    if rng.random() >= VARIED_SHARE:
+        return "GET", o, []
+    method = rng.choice(METHODS)
+    headers = []
+    if rng.random() < (0.75 if method.upper() == "OPTIONS" else 0.35):      # preflight headers
+        headers.append((odd_case(rng, "Access-Control-Request-Method"), rng.choice(ACR_METHODS)))
+        if rng.random() < 0.5:
+            headers.append((odd_case(rng, "Access-Control-Request-Headers"), rng.choice(ACR_HEADERS)))
+    for _ in range(rng.choice([0, 0, 1, 1, 2, 3])):                          # what browsers and proxies send
+        headers.append(rng.choice(BENIGN))
+    if rng.random() < 0.15:                                                  # conditional / Range
+        headers.append(rng.choice(CONDITIONAL))
+        if rng.random() < 0.25:
+            headers.append(rng.choice(CONDITIONAL))
+    rng.shuffle(headers)
+    if rng.random() < 0.22:                                                  # several Origin lines
+        for _ in range(rng.randint(1, 2)):
+            o2 = gen_origin(rng, wl)
+            if o2 is not None:
+                headers.insert(rng.randint(0, len(headers)), (odd_case(rng, "Origin"), o2.strip()))
+        if o is not None and rng.random() < 0.5:                             # the first line need not be the listed one
+            headers.insert(rng.randint(0, len(headers)), (odd_case(rng, "Origin"), o))
+            o = None
+    return method, o, headers
 
 
 class C19(Prop):
@@ -264,14 +333,26 @@ class C19(Prop):
     prop_module = "Props.C19"
     prop_file = "Props/C19.v"
     coq_targets = ["Props/C19.vo", "Run/Judge_C19.vo"]
-    sizes = {"quick": 1500, "thorough": 60000}
+    sizes = {"quick": 1500, "thorough": 40000}
     per_tree = {"quick": 30, "thorough": 150}
     design_ref = "DESIGN.md section 6 C19, section 7 F-C19-a"
     rule = ("raw request targets from a segment grammar (dot segments plain and percent-encoded, encoded "
             "separators, doubled slashes and prefixes, a second /assets/ inside the path, existing files, "
             "directories, index.html, long names, names of the canary files, 8% hostile byte mixtures) x Origin "
-            "(absent, empty, listed, '!'-joined pair of entries, near misses, '*', foreign) x whitelists (empty, "
-            "'*', several, trailing slashes, an entry with '!'), batched per generated file system: a frontend/dist "
+            "(absent, empty, listed, '!'-joined pair of entries, near misses: other case, trailing dot or slash, "
+            "ports, userinfo, suffix domains, two entries in one value, 'null', '*', foreign) x whitelists (empty, "
+            "'*', several, trailing slashes, an entry with '!') x the REST OF THE REQUEST: 60% of the requests "
+            "(VARIED_SHARE) are not plain GETs - method from GET, HEAD, OPTIONS (a third), POST, PUT, DELETE, PATCH, "
+            "TRACE, PROPFIND, QUERY and lower/mixed-case tokens; preflight headers Access-Control-Request-Method / "
+            "-Headers (75% of the OPTIONS requests, 35% of the others; header names in any case); 0-3 headers that "
+            "browsers and proxies send (Accept*, Cookie, Referer, Sec-Fetch-*, X-Forwarded-*, Authorization, "
+            "Content-Type, request headers named Access-Control-Allow-Origin / -Credentials); in 22% further Origin "
+            "lines (1-2, any case of the name, before or after the first one, listed and foreign); in 15% "
+            "conditional / Range headers (single ranges satisfiable and not, If-Modified-Since past / future / "
+            "garbage, If-None-Match, If-Match, If-Unmodified-Since, If-Range) so that the answers include 204-free "
+            "206, 304, 412 and 416 besides 200/301/400/404/500 - all of this for listed and foreign origins alike, "
+            "the Origin generator is shared; the oracle reads EVERY Access-Control-* response header with all its "
+            "values; batched per generated file system: a frontend/dist "
             "tree with canary files and directories outside it; 45% of the trees (LINK_SHARE) also hold 1-6 symbolic "
             "links, mostly below dist: to directories and files inside dist (plain, './', trailing slash, upward but "
             "inside), to other links (chains), to the canary files and directories OUTSIDE dist (relative through "
@@ -280,7 +361,8 @@ class C19(Prop):
             "half of the requests address a link itself (with and without trailing slash, /index.html) or "
             "something below it (children of the target, canary names, encoded dot segments after the link); "
             "non-trivial = the request is not a plain hit of an existing file without Origin; distinct by SHA-1 "
-            "of the case; corpus/C19 (F-C19-a, F-C19-b witnesses, link-to-directory, 40/41-link chains, loops) runs first")
+            "of the case; corpus/C19 (F-C19-a, F-C19-b witnesses, link-to-directory, 40/41-link chains, loops, R-*: "
+            "preflights with foreign / absent / listed Origin, HEAD, POST, two Origin lines, Range, 304) runs first")
     trusted = [
         "net/http (ServeMux, FileServer, serveFile, http.Dir with mapOpenError), net/url percent-decoding, "
         "path.Clean/path.Base and strings.Replace are modelled in Models/Assets.v and compared on every case (Go's own "
@@ -300,11 +382,32 @@ class C19(Prop):
         "frontend and frontend/dist themselves are plain directories; permissions (403), special files, "
         "NAME_MAX/PATH_MAX are outside the model (requests with a component above 255 bytes and resolutions that "
         "climb above the temporary root are judged by the oracle only: unmodelled)",
-        "GET without conditional or Range headers, no query string; check_webpack_1337 = false",
+        "the CORS clause of the oracle is ac_spec (Models/Assets.v, meaning proved in C19_ac_spec_sound) on the "
+        "list of ALL response headers whose name starts with Access-Control- (any case) with ALL their values, as "
+        "net/http/httptest recorded them: an Access-Control-Allow-Origin header has exactly one value, that value "
+        "is the value of one of the request's Origin lines and is non-empty and whitelisted; any other "
+        "Access-Control-* response header is accepted only on a request that carries a whitelisted Origin; "
+        "only the whitelist and the values of the Origin lines enter - method, other headers and status do not. "
+        "The model (resp_ac) is stricter: the first Origin line (Header.Get) decides, and it is compared too",
+        "request methods are valid tokens other than CONNECT, header values valid field values without outer white "
+        "space (net/textproto trims it), no request body, no Content-Length / Transfer-Encoding / Expect, no query "
+        "string; the request is parsed by http.ReadRequest and served through ServeMux.ServeHTTP into an "
+        "httptest.ResponseRecorder (so the body that a handler writes for HEAD is seen as written); "
+        "check_webpack_1337 = false",
+        "HEAD: serveContent sends no body (sent_body); conditional and Range headers are looked at by "
+        "net/http's serveContent only when a regular file is about to be sent: such cases (model answer File and a "
+        "Range / If-* header present) are judged by the oracle only (200 = the file's bytes, 206 = a part of a "
+        "regular file inside dist, anything else = no file content; CORS clause as always) while decoding, mux "
+        "and the complete Access-Control-* header list are still compared with the model: verdict unmodelled; "
+        "multi-range requests (multipart bodies) are not generated",
         "the CORS model is the code after fixes/0001-fix-*.patch (F-C19-a); Module.Configure passes the whitelist "
         "untrimmed (trailing slashes are trimmed only in routes.Routes, which is not the handler of this property)",
     ]
     assumptions = [
+        "'the request's Origin' = the value of an Origin header line of the request (names compare "
+        "case-insensitively; with several lines the oracle accepts any of them, the model and the code take the "
+        "first); the whitelist is compared byte for byte (no case folding, no default ports, no trailing dot or "
+        "slash normalisation): C19_cors_all_requests for every method and every list of header lines",
         "OS file system = finite tree of regular files, directories and symbolic links with Linux path resolution "
         "(at most 40 links per lookup); no permission errors; frontend/dist itself is a plain directory",
         "domain of the clause 'never serves a file outside that directory': dom_C19 (no link target is absolute or "
@@ -316,6 +419,13 @@ class C19(Prop):
         "restriction: C19_no_listing and C19_only_file_bytes hold for every tree, whatever the links do",
     ]
     not_yet_proved = [
+        "net/http's precondition and range handling (checkPreconditions, parseRange: 206/304/412/416) is not "
+        "modelled; conditional / Range requests that reach a regular file are judged by the oracle and by the "
+        "method-independent part of the model only",
+        "the theorems about the request as a whole (C19_cors_all_requests, C19_cors_origin_only, "
+        "C19_cors_complete, C19_cors_meets_spec) are about the model resp_ac, in which the method and the other "
+        "header lines are arguments that no branch reads; that the real handler has no such branch is what the "
+        "correspondence check samples (C19_cors_preflight_set_refuted shows the clause rejects one)",
         "C19_only_file_bytes_partial is proved under the syntactic condition dom_C19 on the whole tree; the exact "
         "condition (every link's own resolution ends inside dist) is only evaluated per request by the judge",
     ]
@@ -335,8 +445,10 @@ class C19(Prop):
             for _ in range(min(per, n - len(cases))):
                 c = dict(base)
                 c["raw"] = hx(gen_raw(rng, files, dirs, canaries, links))
-                o = gen_origin(rng, wl)
+                method, o, headers = gen_request(rng, wl)
                 c["origin"] = None if o is None else hx(o)
+                c["method"] = hx(method)
+                c["headers"] = [[hx(k), hx(v)] for k, v in headers]
                 cases.append(c)
         return cases
 
@@ -369,10 +481,14 @@ class C19(Prop):
             nodes[b"/" + b"/".join(parts)] = b"(Link " + cq_bytes(unhx(l["target"])) + b")"
         tree = cq_list([cq_pair(cq_bytes(k), v) for k, v in sorted(nodes.items())])
         mux = {"pass": 0, "redirect": 1, "notfound": 2, "none": 3}[obs["mux"]]
-        cls = {"ok": 0, "redirect": 1, "notfound": 2, "error": 3, "badreq": 4}.get(obs["class"], 5)
+        cls = {"ok": 0, "redirect": 1, "notfound": 2, "error": 3, "badreq": 4, "partial": 6}.get(obs["class"], 5)
+        hdrs = ([] if case["origin"] is None else [(b"Origin", unhx(case["origin"]))]) + \
+               [(unhx(h[0]), unhx(h[1])) for h in case.get("headers") or []]
+        method = b"GET" if case.get("method") is None else unhx(case["method"])
         parsed = obs["mux"] != "none"
         return (b"{| raw := " + cq_bytes(unhx(case["raw"])) +
-                b"; origin := " + cq_opt(None if case["origin"] is None else cq_bytes(unhx(case["origin"]))) +
+                b"; meth := " + cq_bytes(method) +
+                b"; hdrs := " + cq_list([cq_pair(cq_bytes(k), cq_bytes(v)) for k, v in hdrs]) +
                 b"; wl := " + cq_list([cq_bytes(unhx(w)) for w in case["whitelist"]]) +
                 b"; files := " + tree +
                 b"; go_parsed := " + cq_bool(parsed) +
@@ -383,19 +499,24 @@ class C19(Prop):
                 b"; go_mux := " + cq_nat(mux) +
                 b"; go_class := " + cq_nat(cls) +
                 b"; go_body := " + cq_bytes(unhx(obs["body"])) +
-                b"; go_acao := " + cq_opt(None if obs["acao"] is None else cq_bytes(unhx(obs["acao"]))) +
-                b"; go_acao_n := " + cq_nat(min(obs["acao_n"], 9)) + b" |}")
+                b"; go_ac := " + cq_list([cq_pair(cq_bytes(unhx(h["name"])),
+                                                   cq_list([cq_bytes(unhx(v)) for v in h["values"]]))
+                                           for h in obs.get("ac") or []]) + b" |}")
 
     def model_expr(self):
         return "model_says c"
 
     def nontrivial(self, case, obs):
         raw = unhx(case["raw"])
-        plain = obs["class"] == "ok" and case["origin"] is None and b"%" not in raw and b".." not in raw
+        plain = (obs["class"] == "ok" and case["origin"] is None and b"%" not in raw and b".." not in raw and
+                 case.get("method") in (None, hx("GET")) and not case.get("headers"))
         return not plain
 
     def sample(self, case, obs):
-        return {"raw": unhx(case["raw"]).decode("latin-1")[:120],
+        return {"method": "GET" if case.get("method") is None else unhx(case["method"]).decode("latin-1"),
+                "headers": [unhx(h[0]).decode("latin-1") + ": " + unhx(h[1]).decode("latin-1")
+                            for h in case.get("headers") or []],
+                "raw": unhx(case["raw"]).decode("latin-1")[:120],
                 "origin": None if case["origin"] is None else unhx(case["origin"]).decode("latin-1"),
                 "whitelist": [unhx(w).decode("latin-1") for w in case["whitelist"]],
                 "files": [unhx(f["path"]).decode("latin-1")[:40] for f in case["files"]],
@@ -405,13 +526,21 @@ class C19(Prop):
                           for l in case.get("links", [])][:8],
                 "go": {"status": obs["status"], "mux": obs["mux"], "decoded": unhx(obs["dec"]).decode("latin-1")[:120],
                        "body": unhx(obs["body"]).decode("latin-1")[:60],
-                       "acao": None if obs["acao"] is None else unhx(obs["acao"]).decode("latin-1")}}
+                       "access_control": {unhx(h["name"]).decode("latin-1"): [unhx(v).decode("latin-1") for v in h["values"]]
+                                          for h in obs.get("ac") or []}}}
 
     def shrink(self, case):
         def variant(**kw):
             c = dict(case)
             c.update(kw)
             return c
+        hs = case.get("headers") or []
+        if hs:
+            yield variant(headers=[])
+            for i in range(len(hs)):
+                yield variant(headers=hs[:i] + hs[i + 1:])
+        if case.get("method") not in (None, hx("GET")):
+            yield variant(method=hx("GET"))
         raw = unhx(case["raw"]).decode("latin-1")
         if raw != "/assets/x":
             yield variant(raw=hx("/assets/x"))
@@ -450,14 +579,22 @@ class C19(Prop):
              "origin_absent": 0, "origin_empty": 0, "origin_listed": 0, "origin_with_bang": 0, "origin_other": 0,
              "whitelist_empty": 0, "whitelist_star": 0, "whitelist_trailing_slash": 0, "trees": 0,
              "tree_has_links": 0, "tree_has_link_out_of_dist": 0, "raw_names_a_link": 0, "trees_with_links": 0,
-             "answer_200_through_link": 0, "answer_200_with_canary_bytes": 0}
+             "answer_200_through_link": 0, "answer_200_with_canary_bytes": 0,
+             "request_plain_get": 0, "request_preflight_headers": 0, "request_options_preflight": 0,
+             "request_options_preflight_origin_not_allowed": 0, "request_several_origin_lines": 0,
+             "request_conditional_or_range": 0, "request_other_headers": 0, "request_not_get_origin_allowed": 0,
+             "request_not_get_origin_not_allowed": 0, "status_206": 0, "status_304": 0, "status_412": 0,
+             "status_416": 0, "answer_head_200": 0, "response_access_control_headers_other_than_acao": 0,
+             "acao_set_on_non_200": 0}
+        for m in sorted(set(x.upper() for x in METHODS)):
+            d["method_" + m] = 0
         for k in ("dir", "file", "chain", "out-file", "out-dir", "dangling", "loop", "file-slash", "dots", "above",
                   "long-chain"):
             d["tree_has_link_kind_" + k] = 0
         seen = set()
         for c, o in zip(cases, obss):
             k = {"ok": "status_200", "redirect": "status_301", "notfound": "status_404", "error": "status_500",
-                 "badreq": "status_400"}.get(o["class"], "status_other")
+                 "badreq": "status_400", "partial": "status_206"}.get(o["class"], "status_other")
             d[k] += 1
             if o["mux"] in ("pass", "redirect", "notfound"):
                 d["mux_" + o["mux"]] += 1
@@ -472,6 +609,28 @@ class C19(Prop):
             d["raw_names_a_canary"] += any(t in raw for t in (b"secret", b"canary", b"dist"))
             d["raw_long"] += len(raw) > 200
             wl = [unhx(w) for w in c["whitelist"]]
+            method = "GET" if c.get("method") is None else unhx(c["method"]).decode("latin-1")
+            hs = [(unhx(h[0]).decode("latin-1").lower(), unhx(h[1])) for h in c.get("headers") or []]
+            d["method_" + method.upper()] = d.get("method_" + method.upper(), 0) + 1
+            origins = ([] if c["origin"] is None else [unhx(c["origin"])]) + [v for k, v in hs if k == "origin"]
+            allowed = any(v and (v in wl or b"*" in wl) for v in origins)
+            pre = any(k == "access-control-request-method" for k, _ in hs)
+            d["request_plain_get"] += method == "GET" and not hs
+            d["request_preflight_headers"] += pre
+            d["request_options_preflight"] += pre and method.upper() == "OPTIONS"
+            d["request_options_preflight_origin_not_allowed"] += pre and method == "OPTIONS" and not allowed
+            d["request_several_origin_lines"] += len(origins) > 1
+            d["request_conditional_or_range"] += any(k in CONDITIONAL_NAMES for k, _ in hs)
+            d["request_other_headers"] += any(k not in CONDITIONAL_NAMES and k != "origin" and
+                                              not k.startswith("access-control-request-") for k, _ in hs)
+            d["request_not_get_origin_allowed"] += method != "GET" and allowed
+            d["request_not_get_origin_not_allowed"] += method != "GET" and not allowed
+            for st in (206, 304, 412, 416):
+                d["status_%d" % st] += o["status"] == st
+            d["answer_head_200"] += method == "HEAD" and o["status"] == 200
+            d["response_access_control_headers_other_than_acao"] += any(
+                unhx(h["name"]).lower() != b"access-control-allow-origin" for h in o.get("ac") or [])
+            d["acao_set_on_non_200"] += o["acao"] is not None and o["status"] != 200
             if c["origin"] is None:
                 d["origin_absent"] += 1
             elif c["origin"] == "":
